@@ -148,6 +148,54 @@ Proof.
   unfold on_circle, d2, padd, psub, pscale, pdiv. rsimp. fold R0 r0.
   destruct A as [[ax ay] RA], B as [[bx b_y] RB]. cbn [cc cr px py] in *.
   subst R0 r0. cbn [cr] in *.
+  set (y := (d * d + RB * RB - RA * RA) / (2 * d)) in *.
+  assert (Hy : 2 * d * y = d * d + RB * RB - RA * RA) by (unfold y; field; lra).
+  (* - RB < y < RB *)
+  assert (HyR : 2 * d * (RB - y) = (RA + RB - d) * (RA + d - RB)) by (rewrite Rmult_minus_distr_l, Hy; ring).
+  assert (HyL : 2 * d * (RB + y) = (RB + d - RA) * (RB + d + RA)) by (rewrite Rmult_plus_distr_l, Hy; ring).
+  assert (Hp1 : 0 < (RA + RB - d) * (RA + d - RB)) by (apply Rmult_lt_0_compat; lra).
+  assert (Hp2 : 0 < (RB + d - RA) * (RB + d + RA)) by (apply Rmult_lt_0_compat; lra).
+  assert (Hy1 : y < RB) by nra.
+  assert (Hy2 : - RB < y) by nra.
+  assert (Hv : 0 < RB * RB - y * y) by nra.
+  rewrite Rmax_left by lra.
+  set (h := sqrt (RB * RB - y * y)) in *.
+  assert (Hh : h * h = RB * RB - y * y) by (apply sqrt_sqrt; lra).
+  assert (Hh0 : 0 < h) by (apply sqrt_lt_R0; lra).
+  set (ux := (bx - ax) / d) in *. set (uy := (b_y - ay) / d) in *.
+  assert (Hux : d * ux = bx - ax) by (unfold ux; field; lra).
+  assert (Huy : d * uy = b_y - ay) by (unfold uy; field; lra).
+  assert (Hu : ux * ux + uy * uy = 1).
+  { apply (Rmult_eq_reg_l (d * d)); [|nra].
+    replace (d * d * (ux * ux + uy * uy)) with ((d * ux) * (d * ux) + (d * uy) * (d * uy)) by ring.
+    rewrite Hux, Huy, Rmult_1_r, HD. ring. }
+  clearbody y h ux uy d.
+  assert (Hbx : bx = ax + d * ux) by lra. assert (Hby : b_y = ay + d * uy) by lra.
+  repeat split.
+  - subst bx b_y. clear - Hh Hu Hy. nsatz.
+  - clear - Hh Hu. nsatz.
+  - subst bx b_y. clear - Hh Hu Hy. nsatz.
+  - clear - Hh Hu. nsatz.
+  - intro Epq. injection Epq as Ep1 Ep2.
+    assert (uy * h = 0) by lra. assert (ux * h = 0) by lra. nra.
+Qed.
+
+(** the same branch as written between commit bc281aa and the present code (measured from the larger
+    circle): in exact arithmetic it has the same property *)
+Lemma ord_cross_big : R0 - r0 + eps <= d < R0 + r0 - eps ->
+  exists p q, intersect_cc_ordered_big rops eps A B = CCIntersect p q
+    /\ on_circle A p /\ on_circle B p /\ on_circle A q /\ on_circle B q /\ p <> q.
+Proof.
+  intros H.
+  assert (Hd : 0 < d) by lra.
+  unfold intersect_cc_ordered_big. rewrite dist_edist. fold d R0 r0. rsimp.
+  pose proof (edist_nonneg (cc A) (cc B)) as Hd0; fold d in Hd0.
+  repeat (case_ltb; cbn [andb]; try lra).
+  eexists; eexists; split; [reflexivity|].
+  pose proof (edist_sqr (cc A) (cc B)) as HD. fold d in HD. unfold d2 in HD.
+  unfold on_circle, d2, padd, psub, pscale, pdiv. rsimp. fold R0 r0.
+  destruct A as [[ax ay] RA], B as [[bx b_y] RB]. cbn [cc cr px py] in *.
+  subst R0 r0. cbn [cr] in *.
   set (x := (d * d + RA * RA - RB * RB) / (2 * d)) in *.
   assert (Hx : 2 * d * x = d * d + RA * RA - RB * RB) by (unfold x; field; lra).
   (* 0 <= x < RA *)
